@@ -377,3 +377,8 @@ def totality(ctx, fn, level_id):
                    "look-ahead is one peek_amount(<constant>) and never advances the iterator", "advancing calls %d, peek_amount calls %d" % (len(adv), len(pk)))
     else:
         ctx.bad("C15.4", "missing-anchor/scope_is_small", fn["sp"], "look-ahead helper not found")
+
+
+def check_nodefault(ctx):
+    """T1: the formatter is compiled in every feature configuration; same rules on the --no-default-features facts"""
+    check(ctx)
